@@ -351,6 +351,19 @@ def run(ctx):
                 c = ('const', gen.pick(rng, ('NAN', 'INF', 'PI')))
                 case.e = ('bin', '<', case.e, c) if t == gen.NUM else (('bin', 'and', case.e, ('bin', '<', A.num('1'), c)) if t == gen.BOOL else case.e)
                 t = gen.BOOL if t in (gen.NUM, gen.BOOL) else t
+            if n % 11 == 0:
+                # aggregates over tiny sets of references under an operator with numeric parameters: folding rules
+                # that hand back a member of the caller's set meet constructors that narrow their operands
+                tg3 = gen.Typed(rng, this=case.this, aliases=case.aliases, maxdepth=1)
+                r1, r2 = tg3.ref(gen.NUM, 0), tg3.ref(gen.NUM, 0)
+                if r1 is not None and r2 is not None:
+                    members = gen.pick(rng, ((r1,), (r1, r1), (r1, r2), (r1, A.num('0'))))
+                    call = ('call', gen.pick(rng, ('max', 'min', 'sum', 'prod')), (('set', members),))
+                    call = A.neg(call) if rng.random() < 0.3 else call
+                    case.e = ('bin', gen.pick(rng, ('>', '<=', '+', '*')), call, gen.pick(rng, (A.num('3'), r2)))
+                    if case.e[1] in ('+', '*'):
+                        case.e = ('bin', '<', case.e, A.num('10'))
+                    t = gen.BOOL
             if not A.renderable(case.e):
                 continue
             if t == gen.BOOL and rng.random() < 0.5:
